@@ -566,6 +566,76 @@ def pickled_scenario_fingerprint(rows, start):
 
 
 # ------------------------------------------------------------------------------------------------
+# set-up histories on the REAL path: SimulationManager steps with kill points between them
+# ------------------------------------------------------------------------------------------------
+class _Killed(BaseException):
+    """stands for the process being gone (Ctrl-C / OOM / power) inside the emission generation"""
+
+
+def run_setup_history(root, runs):
+    """runs: [(cfg, kill)] with kill in "c" (after check_generator_files), "i" (after setup_infrastructure),
+    "f<k>" (inside setup_emissions, after k scenario files of that call), "m" (after the marker was written, before
+    anything is handed out) or "x" (complete).  Every run rewrites the input files of `cfg` into the SAME folder
+    (harness.wholerun.materialize) and performs the steps of ldar_sim_run.run_ldar_sim that touch the generator
+    folder, in its order, on a real SimulationManager; a killed run simply does not execute the later steps.  For a
+    complete run the scenarios are read with the manager's own read_in_emissions, one simulation number at a time."""
+    from pathlib import Path
+    from harness import wholerun as W
+    from file_processing.input_processing.input_manager import InputManager
+    from simulation.simulation_manager import SimulationManager
+    out = []
+    gdir = pathlib.Path(root) / "inputs" / Generator_Files.GENERATOR_FOLDER
+    for cfg, kill in runs:
+        files, _, _ = W.materialize(cfg, str(root))
+        rec = {"kill": kill, "hash_file_exists": None, "generated": [], "handed": None}
+        with contextlib.redirect_stdout(io.StringIO()):
+            mgr = SimulationManager(input_manager=InputManager(), parameter_filenames=[Path(f) for f in files])
+            mgr.check_generator_files()
+            if kill != "c":
+                mgr.setup_infrastructure()
+                rec["hash_file_exists"] = bool(mgr.hash_file_exists)
+                if kill != "i":
+                    infra = mgr.infrastructure
+                    orig = infra.generate_emissions
+                    limit = int(kill[1:]) if kill.startswith("f") else None
+
+                    def gen(*a, _orig=orig, _rec=rec, _limit=limit, **k):
+                        if _limit is not None and len(_rec["generated"]) >= _limit:
+                            raise _Killed()
+                        sim = k.get("sim_number", a[2] if len(a) > 2 else None)
+                        _rec["generated"].append(int(sim))
+                        return _orig(*a, **k)
+
+                    infra.generate_emissions = gen
+                    try:
+                        mgr.setup_emissions()
+                    except _Killed:
+                        pass
+                    finally:
+                        del infra.generate_emissions
+                    if kill == "x":
+                        handed = {}
+                        for i in range(mgr.simulation_count):
+                            inf = INIT.read_in_emissions(mgr.infrastructure, mgr.generator_dir, i)
+                            rows = []
+                            for site in inf._sites:
+                                for eqg in site._equipment_groups:
+                                    for comp in eqg._component:
+                                        for src in comp._sources:
+                                            ems = src._generated_emissions[i]
+                                            rows.append(((str(site.get_id()), str(eqg.get_id()), str(comp.get_id()), str(src.get_id())),
+                                                         [(e._start_date.isoformat(), e._emissions_id, float(e._rate),
+                                                           bool(e._repairable), int(getattr(e, "_nrd", getattr(e, "_duration", -1))))
+                                                          for e in ems]))
+                            handed[i] = rows
+                        rec["handed"] = handed
+        nloc = gdir / Generator_Files.N_SIM_SAVE_FILE
+        rec["marker"] = int(_read_pickle(nloc)) if nloc.exists() else None
+        out.append(rec)
+    return out
+
+
+# ------------------------------------------------------------------------------------------------
 # the same case ALONE in a fresh process (reference for same-process history runs)
 # ------------------------------------------------------------------------------------------------
 def rates_of_folder(folder, np_seed, k):
